@@ -184,20 +184,30 @@ package dnssec
 //@   nosafety all pre
 //@   assert at call middleware/resolver/dnssec.typesSet#1: arg0 == nsec.TypeBitMap && len(arg1) == 2 && arg1[0] == q.Qtype && arg1[1] == dns.TypeCNAME
 //@   assert at call middleware/resolver/dnssec.typesSet#2: arg0 == nsec.TypeBitMap && len(arg1) == 1 && arg1[0] == dns.TypeSOA
-//@   assert at return#4: result == nil && !lastret("middleware/resolver/dnssec.typesSet#1") && (q.Qtype == dns.TypeDS ==> !lastret("middleware/resolver/dnssec.typesSet#2"))
+//@   assert at return#5: result == nil && !lastret("middleware/resolver/dnssec.typesSet#1") && (q.Qtype == dns.TypeDS ==> !lastret("middleware/resolver/dnssec.typesSet#2"))
+//@   # "below a delegation ... never denied": the parent's record AT a delegation point (NS set, SOA clear) proves the
+//@   # absence of DS and of nothing else (RFC 6840 4.1) - the exact-owner proof is refused for any other type
+//@   assert at return#5: q.Qtype != dns.TypeDS ==> !lastret("middleware/resolver/dnssec.parentSideDelegation")
+//@   assert at call middleware/resolver/dnssec.parentSideDelegation#1: arg0 == nsec.TypeBitMap
+//@   assert at return#4: result != nil
 //@   assert at call middleware/resolver/dnssec.nsecCovers#1: arg2 == qname
 //@   assert at call middleware/resolver/dnssec.closestEncloserFromNSEC#1: lastret("middleware/resolver/dnssec.nsecCovers#1") && arg0 == qname && arg1 == covering
 //@   assert at call middleware/resolver/dnssec.typesSet#3: arg0 == nsec.TypeBitMap && len(arg1) == 2 && arg1[0] == q.Qtype && arg1[1] == dns.TypeCNAME
 //@   assert at call middleware/resolver/dnssec.typesSet#4: arg0 == nsec.TypeBitMap && len(arg1) == 1 && arg1[0] == dns.TypeSOA
-//@   assert at return#9: result == nil && lastret("middleware/resolver/dnssec.nsecCovers#1") && !lastret("middleware/resolver/dnssec.typesSet#3") && (q.Qtype == dns.TypeDS ==> !lastret("middleware/resolver/dnssec.typesSet#4"))
+//@   assert at return#10: result == nil && lastret("middleware/resolver/dnssec.nsecCovers#1") && !lastret("middleware/resolver/dnssec.typesSet#3") && (q.Qtype == dns.TypeDS ==> !lastret("middleware/resolver/dnssec.typesSet#4"))
 //@   assert at return#1: result != nil
 //@   assert at return#2: result != nil
 //@   assert at return#3: result != nil
-//@   assert at return#5: result != nil
 //@   assert at return#6: result != nil
 //@   assert at return#7: result != nil
 //@   assert at return#8: result != nil
-//@   assert at return#10: result != nil
+//@   assert at return#9: result != nil
+//@   assert at return#11: result != nil
+//@
+//@ # the bitmap of the parent zone's record at a delegation point: NS present and SOA absent
+//@ func parentSideDelegation
+//@   modifies nothing
+//@   ensures result == ((exists i int :: {types[i]} 0 <= i && i < len(types) && types[i] == dns.TypeNS) && !(exists i int :: {types[i]} 0 <= i && i < len(types) && types[i] == dns.TypeSOA))
 //@
 //@ # typesSet(set, types...) is true exactly when some listed type occurs in the bitmap's type list
 //@ func typesSet
@@ -291,21 +301,25 @@ package dnssec
 //@   assert at call middleware/resolver/dnssec.newNSEC3RingEvaluator#1: prepared.qclass == q.Qclass && arg1 == work && lastret("middleware/resolver/dnssec.prepareNSEC3Set", 1) == nil
 //@   assert at call middleware/resolver/dnssec.typesSet#1: arg0 == lastret("middleware/resolver/dnssec.findMatchingWithWork#1") && len(arg1) == 2 && arg1[0] == q.Qtype && arg1[1] == dns.TypeCNAME
 //@   assert at call middleware/resolver/dnssec.typesSet#3: arg0 == lastret("middleware/resolver/dnssec.findMatchingWithWork#2") && len(arg1) == 2 && arg1[0] == q.Qtype && arg1[1] == dns.TypeCNAME
-//@   assert at return#5: result0 && result1 == nil && lastret("middleware/resolver/dnssec.findMatchingWithWork#1", 1) == nil && !lastret("middleware/resolver/dnssec.typesSet#1") && (q.Qtype == dns.TypeDS ==> !lastret("middleware/resolver/dnssec.typesSet#2"))
-//@   assert at return#11: !result0 && result1 == nil && q.Qtype == dns.TypeDS && lastret("middleware/resolver/dnssec.validateNSEC3ClosestEncloser") == nil && lastret("middleware/resolver/dnssec.findCovererWithWork#1", 1) && lastret("middleware/resolver/dnssec.findCovererWithWork#1", 2) == nil
-//@   assert at return#15: result1 == nil && lastret("middleware/resolver/dnssec.validateNSEC3ClosestEncloser") == nil && lastret("middleware/resolver/dnssec.findCovererWithWork#2", 2) == nil && lastret("middleware/resolver/dnssec.findMatchingWithWork#2", 1) == nil && !lastret("middleware/resolver/dnssec.typesSet#3") && result0 == !lastret("middleware/resolver/dnssec.findCovererWithWork#2", 1)
+//@   assert at return#5: result1 != nil && !result0
+//@   # the parent's record at a delegation point (NS set, SOA clear) denies DS only (RFC 6840 4.1)
+//@   assert at return#6: q.Qtype != dns.TypeDS ==> !lastret("middleware/resolver/dnssec.parentSideDelegation")
+//@   assert at call middleware/resolver/dnssec.parentSideDelegation#1: arg0 == lastret("middleware/resolver/dnssec.findMatchingWithWork#1")
+//@   assert at return#6: result0 && result1 == nil && lastret("middleware/resolver/dnssec.findMatchingWithWork#1", 1) == nil && !lastret("middleware/resolver/dnssec.typesSet#1") && (q.Qtype == dns.TypeDS ==> !lastret("middleware/resolver/dnssec.typesSet#2"))
+//@   assert at return#12: !result0 && result1 == nil && q.Qtype == dns.TypeDS && lastret("middleware/resolver/dnssec.validateNSEC3ClosestEncloser") == nil && lastret("middleware/resolver/dnssec.findCovererWithWork#1", 1) && lastret("middleware/resolver/dnssec.findCovererWithWork#1", 2) == nil
+//@   assert at return#16: result1 == nil && lastret("middleware/resolver/dnssec.validateNSEC3ClosestEncloser") == nil && lastret("middleware/resolver/dnssec.findCovererWithWork#2", 2) == nil && lastret("middleware/resolver/dnssec.findMatchingWithWork#2", 1) == nil && !lastret("middleware/resolver/dnssec.typesSet#3") && result0 == !lastret("middleware/resolver/dnssec.findCovererWithWork#2", 1)
 //@   assert at return#1: result1 != nil && !result0
 //@   assert at return#2: result1 != nil && !result0
 //@   assert at return#3: result1 != nil && !result0
 //@   assert at return#4: result1 != nil && !result0
-//@   assert at return#6: result1 != nil && !result0
 //@   assert at return#7: result1 != nil && !result0
 //@   assert at return#8: result1 != nil && !result0
 //@   assert at return#9: result1 != nil && !result0
 //@   assert at return#10: result1 != nil && !result0
-//@   assert at return#12: result1 != nil && !result0
+//@   assert at return#11: result1 != nil && !result0
 //@   assert at return#13: result1 != nil && !result0
 //@   assert at return#14: result1 != nil && !result0
+//@   assert at return#15: result1 != nil && !result0
 //@
 //@ # insecure delegation from NSEC3: exact match with NS and neither DS nor SOA, or an opt-out cover of the next-closer
 //@ # name under a valid closest encloser; bound to the caller's signer zone
